@@ -2,6 +2,7 @@
 # SPDX-License-Identifier: BSD-4-Clause
 from __future__ import annotations
 
+import threading
 import weakref
 from collections import defaultdict
 from collections.abc import Iterable, Mapping
@@ -30,6 +31,9 @@ _model_classes: list[type[Model]] = []
 
 def model_classes() -> list[type[Model]]:
     return _model_classes
+
+
+_optimized_lock = threading.RLock()
 
 
 @nodedataclass
@@ -756,15 +760,20 @@ class Grammar(Model):
         if isinstance(self._optimized, Grammar):
             return self._optimized
 
-        optrules: tuple[Rule, ...] = tuple(r.optimized() for r in self.rules)
-        new = copy(self)
-        new.rules = optrules
-        new.initialize()
+        # NOTE: threads may share the model, and the first parse of each gets here
+        with _optimized_lock:
+            if isinstance(self._optimized, Grammar):
+                return self._optimized
 
-        self._optimized = new  # NOTE cache optimized grammar
-        new._optimized = new  # NOTE circular reference as cached
+            optrules: tuple[Rule, ...] = tuple(r.optimized() for r in self.rules)
+            new = copy(self)
+            new.rules = optrules
+            new.initialize()
 
-        return new
+            new._optimized = new  # NOTE circular reference as cached
+            self._optimized = new  # NOTE cache optimized grammar
+
+            return new
 
     @classmethod
     def __from_json__(cls: type[Self], data: Mapping[str, Any]) -> Grammar:
